@@ -430,7 +430,7 @@ func vView(d did.Document) vNDoc {
 			}
 		}
 		n.Services = append(n.Services, vNSvc{ID: idStr, Pfx: u.String(), Frag: frag, Type: s.Type,
-			IDBlank: len(strings.TrimSpace(idStr)) == 0, TypeBlank: len(strings.TrimSpace(s.Type)) == 0, EndpointBad: bad, Body: vDigest(s)})
+			IDBlank: len(strings.TrimSpace(idStr)) == 0, TypeBlank: len(strings.TrimSpace(s.Type)) == 0, EndpointBad: bad, Body: vDigest(s) + "~" + base64.RawURLEncoding.EncodeToString([]byte(s.Type))})
 	}
 	return n
 }
@@ -610,6 +610,7 @@ type vNode struct {
 	recv     dag.ReceiverFn
 	reached  bool
 	ack      string
+	faultHit bool // the injected failing store call was executed in the last viaEntry
 }
 
 func vNewNode(t *testing.T, ctrl *gomock.Controller, path string) *vNode {
@@ -1305,6 +1306,11 @@ func (g *vGen) randomEdit(s *vDocSpec) {
 		}
 		if !found {
 			s.Svcs = append(s.Svcs, vSvcSpec{ID: id, Type: fmt.Sprintf("type-%d", n), Endpoint: "https://example.com/x"})
+			if g.rng.Intn(3) == 0 {
+				// a second service whose type is another SPELLING of the first one's (padded / upper case): a different type string, allowed
+				variant := []string{"type-%d ", " type-%d", "TYPE-%d", "type-%d\t"}[g.rng.Intn(4)]
+				s.Svcs = append(s.Svcs, vSvcSpec{ID: fmt.Sprintf("%s#svc-v%d", s.ID, n), Type: fmt.Sprintf(variant, n), Endpoint: "https://example.com/v"})
+			}
 		}
 	case 4: // remove services
 		s.Svcs = nil
@@ -1369,7 +1375,8 @@ var vViolations = []string{"no-did-context", "vm-no-fragment", "vm-duplicate-id"
 	"vm-prefix-extension", "vm-prefix-truncated", "svc-prefix-extension", "svc-prefix-truncated",
 	"vm-secp-type-thumbprint-mismatch", "vm-unknown-type-thumbprint-mismatch", "vm-ed25519-type-jwk-mismatch", "vm-ed25519-base58-no-jwk",
 	"vm-keyswap-known-id-other-type", "vm-foreign-prefix-and-controller", "vm-foreign-prefix-and-controller-capinv", "vm-known-did-prefix-and-controller", "vm-null-entry", "rel-null-entry", "rel-empty-string-entry",
-	"vm-relative-id", "vm-relative-id-capinv", "vm-relative-id-query", "vm-relative-id-path", "svc-relative-id", "svc-relative-id-query", "svc-relative-id-path"}
+	"vm-relative-id", "vm-relative-id-capinv", "vm-relative-id-query", "vm-relative-id-path", "svc-relative-id", "svc-relative-id-query", "svc-relative-id-path",
+	"svc-duplicate-type-padded", "svc-duplicate-type-padded-lead", "svc-duplicate-type-tab", "svc-duplicate-type-third", "svc-duplicate-type-upper"}
 
 func (g *vGen) violate(which string, s *vDocSpec) {
 	other := "did:nuts:" + g.keys[0].b58
@@ -1409,6 +1416,14 @@ func (g *vGen) violate(which string, s *vDocSpec) {
 		s.Svcs = append(s.Svcs, vSvcSpec{ID: other + "#svc", Type: "type-fp", Endpoint: "https://example.com"})
 	case "svc-duplicate-type":
 		s.Svcs = append(s.Svcs, vSvcSpec{ID: s.ID + "#t1", Type: "type-same", Endpoint: "https://example.com"}, vSvcSpec{ID: s.ID + "#t2", Type: "type-same", Endpoint: "https://example.com"})
+	case "svc-duplicate-type-padded", "svc-duplicate-type-padded-lead", "svc-duplicate-type-tab", "svc-duplicate-type-upper":
+		// the SAME type string twice, where the string carries padding / upper case (any normalisation of the looked-up key only must still see it)
+		t := map[string]string{"svc-duplicate-type-padded": "type-pad ", "svc-duplicate-type-padded-lead": " type-pad", "svc-duplicate-type-tab": "type-pad\t", "svc-duplicate-type-upper": "TYPE-Pad"}[which]
+		s.Svcs = append(s.Svcs, vSvcSpec{ID: s.ID + "#tp1", Type: t, Endpoint: "https://example.com"}, vSvcSpec{ID: s.ID + "#tp2", Type: t, Endpoint: "https://example.com"})
+	case "svc-duplicate-type-third":
+		// the duplicate is the third service, its twin the second, both padded; the first is the unpadded spelling (a different type)
+		s.Svcs = append(s.Svcs, vSvcSpec{ID: s.ID + "#tt1", Type: "type-3rd", Endpoint: "https://example.com"},
+			vSvcSpec{ID: s.ID + "#tt2", Type: "type-3rd  ", Endpoint: "https://example.com"}, vSvcSpec{ID: s.ID + "#tt3", Type: "type-3rd  ", Endpoint: "https://example.com"})
 	case "svc-blank-type":
 		s.Svcs = append(s.Svcs, vSvcSpec{ID: s.ID + "#bt", Type: "  ", Endpoint: "https://example.com"})
 	case "svc-no-endpoint":
@@ -2055,8 +2070,10 @@ func (r *vRunner) runHistory(h int, label string, noVerify bool, pairs []*vPair,
 		}
 		var class string
 		cbOnly := noVerify || p.Delayed || p.Ev != nil
+		faultHit := false
 		if p.Ev != nil {
 			class = n.viaEntry(p)
+			faultHit = n.faultHit
 		} else if p.Delayed {
 			class = n.viaSubscriber(p)
 		} else {
@@ -2086,6 +2103,9 @@ func (r *vRunner) runHistory(h int, label string, noVerify bool, pairs []*vPair,
 		note := ""
 		if (n.notified > notified) != (class == "ok") {
 			note = " NOTIFY-MISMATCH"
+		}
+		if faultHit {
+			note += " FAULT-HIT" // the model says the same: where the failing store call is executed is part of the correspondence
 		}
 		if verified && class == "ok" && p.tx.SigningKey() == nil && !sigByKidKey {
 			note += " SIG-NOT-BY-KID-KEY"
@@ -2221,6 +2241,8 @@ func vScenario(g *vGen, kind string, run func(p *vPair) bool) {
 	case kind == "mixed":
 	case kind == "entry-layer":
 		vEntryScenario(g, run)
+	case kind == "lookup-fault":
+		vLookupFaultScenario(g, run)
 	case strings.HasPrefix(kind, "chain"), strings.HasPrefix(kind, "cycle"):
 		// D0 <- D1 <- ... <- Dk : Di is controlled by Di+1; chain: Dk controls itself; cycle: Dk is controlled by D0
 		k, _ := strconv.Atoi(kind[5:])
@@ -2747,7 +2769,7 @@ func TestVerifC09(t *testing.T) {
 	}
 	rng := rand.New(rand.NewSource(seed*7919 + 9))
 	scripted := []string{"chain0", "chain1", "chain2", "chain3", "chain4", "chain5", "chain6", "cycle1", "cycle2", "cycle3", "cycle5",
-		"deactivated-controller", "removed-key", "validator-sweep", "embedded-capinv", "handed-over", "key-swap", "did-prefix", "delayed-vdr", "unknown-did", "relationship-subsets", "deactivated-controller-alias", "chosen-signing-time", "old-prev-first", "entry-layer"}
+		"deactivated-controller", "removed-key", "validator-sweep", "embedded-capinv", "handed-over", "key-swap", "did-prefix", "delayed-vdr", "unknown-did", "relationship-subsets", "deactivated-controller-alias", "chosen-signing-time", "old-prev-first", "entry-layer", "lookup-fault"}
 	for h := 0; h < nHist; h++ {
 		kind := "mixed"
 		if h%2 == 0 {
